@@ -127,6 +127,7 @@ def model_density(gens, N, ql, full, table=None):
 def _work(payload):
     fails = []
     cnt = 0
+    hist = core.History()
     for item in payload:
         cnt += 1
         m, conn, N, qubits, prep_ops, spec, dens = item
@@ -135,9 +136,13 @@ def _work(payload):
         except Exception as ex:      # noqa: BLE001
             import traceback
             msgs = ["raised %s: %s" % (type(ex).__name__, traceback.format_exc()[-300:])]
-        for msg in msgs[:2]:
-            fails.append((msg, {"kind": "fit", "m": m, "conn": conn, "N": N, "qubits": qubits,
-                                "prep": [list(g) for g in prep_ops], "dist": list(spec), "density": dens}))
+        case = {"kind": "fit", "m": m, "conn": conn, "N": N, "qubits": qubits,
+                "prep": [list(g) for g in prep_ops], "dist": list(spec), "density": dens}
+        if msgs:
+            cj = hist.attach(case)
+            for msg in msgs[:2]:
+                fails.append((msg, cj))
+        hist.add(case)
     return cnt, fails
 
 
